@@ -91,8 +91,12 @@ func (c *Ctx) c14Tuples() {
 			if l.String() == idx.String() && lp(rr) {
 				return true
 			}
-			// i+c < ... : At(i+c) with i < Len-c
-			if idx.Kind == "binop" && idx.Name == "+" && l.String() == idx.Args[0].String() && rr.Kind == "binop" && rr.Name == "-" && lp(rr.Args[0]) && rr.Args[1].String() == idx.Args[1].String() {
+			// i+c < ... : At(i+c) with i < Len-c, also when the bound is len(make(_, Len-c))
+			bound := rr
+			if bound.IsCallTo("builtin:len") && bound.Args[0].Kind == "make" && len(bound.Args[0].Args) > 0 {
+				bound = bound.Args[0].Args[0]
+			}
+			if idx.Kind == "binop" && idx.Name == "+" && l.String() == idx.Args[0].String() && bound.Kind == "binop" && bound.Name == "-" && lp(bound.Args[0]) && bound.Args[1].String() == idx.Args[1].String() {
 				return true
 			}
 			return false
@@ -299,11 +303,57 @@ func (c *Ctx) c14NilPkg() {
 		rs := recv.String()
 		ok := d.Implies(c.M(false, isNilCmp(termEq(rs))))
 		if !ok {
-			_, ok = accepted[FnKey(s.Fn)]
+			ok = c.onlyReachedFrom(s.Fn, accepted, 3)
 		}
 		r.Check("C14-4", FnKey(s.Fn)+":"+shortCallee(s.Callee), c.Pos(s.Pos()), ok, "method call on "+rs+" without a dominating nil test (an `error`-typed field makes Pkg() nil → SIGSEGV); reach: "+d.Describe(c.O))
 	}
 	r.Floor("C14-4", "method calls on Pkg() results", n, 4)
+}
+
+// onlyReachedFrom: fn is one of the accepted functions, or every static call site of fn lies in a function that is
+// (helpers extracted from an accepted function inherit its justification).
+func (c *Ctx) onlyReachedFrom(fn *ssa.Function, accepted map[string]string, depth int) bool {
+	if _, ok := accepted[FnKey(fn)]; ok {
+		return true
+	}
+	if depth == 0 {
+		return false
+	}
+	if fn.Parent() != nil {
+		return c.onlyReachedFrom(fn.Parent(), accepted, depth)
+	}
+	n := 0
+	for _, s := range c.Calls(nil) {
+		if s.Instr.Common().StaticCallee() != fn {
+			continue
+		}
+		n++
+		if !c.onlyReachedFrom(s.Fn, accepted, depth-1) {
+			return false
+		}
+	}
+	// the function must not be used as a value elsewhere
+	return n > 0 && !c.usedAsValue(fn)
+}
+
+func (c *Ctx) usedAsValue(fn *ssa.Function) bool {
+	for _, f := range c.P.Funcs() {
+		for _, b := range f.Blocks {
+			for _, in := range b.Instrs {
+				var ops [16]*ssa.Value
+				for i, op := range in.Operands(ops[:0]) {
+					if op == nil || *op != ssa.Value(fn) {
+						continue
+					}
+					if ci, ok := in.(ssa.CallInstruction); ok && i == 0 && ci.Common().Value == ssa.Value(fn) {
+						continue
+					}
+					return true
+				}
+			}
+		}
+	}
+	return false
 }
 
 func (c *Ctx) c14Assert() {
@@ -665,13 +715,84 @@ func (c *Ctx) c14Exit() {
 				}
 				return t.Args[0].IsCallTo("builtin:len") && t.Args[0].Args[0].V == res && t.Args[1].IsCallTo("(*go/types.MethodSet).Len")
 			}
-			r.Check("C14-9", sprintf("%s:success%d:all-or-nothing", FnKey(fn), i+1), c.InstrPos(ret), d.Implies(complete),
+			okAll := d.Implies(complete)
+			if !okAll {
+				okAll = d.Implies(c.failFlagClear(fn))
+			}
+			r.Check("C14-9", sprintf("%s:success%d:all-or-nothing", FnKey(fn), i+1), c.InstrPos(ret), okAll,
 				"parseMethods can report success although fewer entries than methods were produced (a converter method would be dropped silently); reach: "+d.Describe(c.O))
 		}
 		c.noDropLoop("C14-9", fn, "appending the parsed method", func(in ssa.Instruction) bool {
 			return isAppendTo(c, in, func(t *core.Term) bool { return t.Kind == "extract" && t.Args[0].IsCallTo("(*"+pPar+"Parser).parseMethod") })
 		}, c.M(false, isNilCmp(func(t *core.Term) bool { return t.Kind == "extract" && t.Name == "1" && t.Args[0].IsCallTo("(*"+pPar+"Parser).parseMethod") })))
 	}
+}
+
+// failFlagClear matches the literal "F is false" for a loop-carried bool flag F of fn that starts false, is only ever
+// set to the constant true inside the loop, and is set to true on every way round the loop on which the per-method parse
+// reported an error (alternative to comparing the number of produced entries).
+func (c *Ctx) failFlagClear(fn *ssa.Function) core.LitMatcher {
+	parseErr := func(t *core.Term) bool {
+		return t.Kind == "extract" && t.Name == "1" && t.Args[0].IsCallTo("(*"+pPar+"Parser).parseMethod")
+	}
+	good := map[ssa.Value]bool{}
+	rc := c.Reach(fn)
+	for _, b := range fn.Blocks {
+		for _, in := range b.Instrs {
+			phi, ok := in.(*ssa.Phi)
+			if !ok || phi.Type().String() != "bool" {
+				continue
+			}
+			body := loopOf(b)
+			if body == nil || !body[b] {
+				continue
+			}
+			ok = true
+			sawSet := false
+			for i, p := range b.Preds {
+				e := phi.Edges[i]
+				if !body[p] {
+					if k, isK := e.(*ssa.Const); !isK || k.Value == nil || k.Value.ExactString() != "false" {
+						ok = false
+					}
+					continue
+				}
+				for _, cs := range rc.CasesStop(e, map[ssa.Value]bool{phi: true}) {
+					cond := rc.At(p)
+					if cs.Cond != nil {
+						cond = core.And(cs.Cond, cond)
+					}
+					isTrue := false
+					if k, isK := cs.V.(*ssa.Const); isK && k.Value != nil && k.Value.ExactString() == "true" {
+						isTrue = true
+						sawSet = true
+					}
+					if !isTrue && cs.V != ssa.Value(phi) {
+						ok = false
+					}
+					// a way round the loop with a pending parse error must set the flag
+					failing := core.Restrict(cond, core.DNF{})
+					_ = failing
+					for _, cj := range cond {
+						hasErr := false
+						for _, l := range cj {
+							t, pos := c.Canon(l)
+							if isNilCmp(parseErr)(t) && !pos {
+								hasErr = true
+							}
+						}
+						if hasErr && !isTrue {
+							ok = false
+						}
+					}
+				}
+			}
+			if ok && sawSet {
+				good[phi] = true
+			}
+		}
+	}
+	return func(l core.Lit) bool { return l.Neg && good[l.V] }
 }
 
 // errorsPropagate: for every module call in fn that yields an error, each success return reachable after it is on the nil edge of that error.
